@@ -187,12 +187,13 @@ def run(ctx) -> None:
     ctx.rule("R1", "guard lists == parts of the year/week fields; returns False iff (Y with V) or (G with W/U)")
     ctx.rule("R2", "guard dominates rendering in incr and is enforced by the config validator")
     ctx.rule("R3", "both calendar producers bind each field to the same directive")
-    ctx.rule("R4", "future guard: lexicographic > over V2CalendarInfo._fields; years first, quarter < month < dom")
+    ctx.rule("R4", "future guard: lexicographic > over V2CalendarInfo._fields; years first, quarter < month < dom; a version from the future is bumped as it was parsed (C05/R4)")
     ctx.rule("R5", "prerequisite: every calendar part renders within its recogniser (fixed width where zero-padded) and every calendar field is read back (C02/R1-R4, calendar parts only)")
     from sa.report import run_prerequisite
     _fields_tab = prog.const("v2patterns", "PATTERN_PART_FIELDS")
     _cal_fields = {"year_y", "year_g", "quarter", "month", "dom", "doy", "week_w", "week_u", "week_v"}
     _cal_parts = {p_ for p_, f_ in _fields_tab.items() if f_ in _cal_fields}
+    run_prerequisite(ctx, "C05", ("R4",), "R4")
     run_prerequisite(ctx, "C02", ("R1", "R2", "R3", "R4"), "R5",
                      only=lambda key: any(f"['{p_}']" in key for p_ in _cal_parts) or any(f"'{f_}'" in key for f_ in _cal_fields))
 
